@@ -93,6 +93,61 @@ fn run(threads: usize, calls: usize, nlocks: usize, seed: u64, long_hold: bool) 
     (evs, finals, all_joined)
 }
 
+/// Non-reentrant use of TWO locks by one thread: the closure applied to lock 0 applies a closure to
+/// lock 1 (always in this order, so there is no lock-order cycle).  Returns (final value of lock 0,
+/// final value of lock 1, all threads came back, number of calls that panicked or returned a value
+/// other than their closure's).
+fn nested(threads: usize, iters: usize) -> (i64, i64, bool, usize) {
+    let locks: Arc<Vec<StdLock<i64>>> = Arc::new((0..2).map(|_| StdLock::new(0)).collect());
+    let bad = Arc::new(AtomicU64::new(0));
+    let mut hs = vec![];
+    for _ in 0..threads {
+        let (locks, bad) = (locks.clone(), bad.clone());
+        hs.push(std::thread::spawn(move || {
+            for _ in 0..iters {
+                let r = std::panic::catch_unwind(std::panic::AssertUnwindSafe(|| {
+                    locks[0].apply(|a: &mut i64| {
+                        *a += 1;
+                        let mine = *a;
+                        let (inner_ret, inner_val) = {
+                            let mut seen = 0;
+                            let r = locks[1].apply(|b: &mut i64| {
+                                *b += 1;
+                                seen = *b;
+                                *b * 10
+                            });
+                            (r, seen)
+                        };
+                        (mine, inner_ret == inner_val * 10)
+                    })
+                }));
+                match r {
+                    Ok((_, true)) => {}
+                    _ => {
+                        bad.fetch_add(1, Ordering::SeqCst);
+                    }
+                }
+            }
+        }));
+    }
+    let deadline = std::time::Instant::now() + Duration::from_secs(60);
+    let mut joined = true;
+    for h in hs {
+        while !h.is_finished() {
+            if std::time::Instant::now() > deadline {
+                joined = false;
+                break;
+            }
+            std::thread::sleep(Duration::from_millis(1));
+        }
+        if h.is_finished() {
+            let _ = h.join();
+        }
+    }
+    let fin = |k: usize| std::panic::catch_unwind(std::panic::AssertUnwindSafe(|| locks[k].apply(|v| *v))).unwrap_or(-1);
+    (fin(0), fin(1), joined, bad.load(Ordering::SeqCst) as usize)
+}
+
 pub fn main(args: &Args) -> i32 {
     let mut b = Batcher::new(&args.out, "lock", 60_000);
     let mut rng = SmallRng::seed_from_u64(args.seed ^ 0x10C);
@@ -111,6 +166,13 @@ pub fn main(args: &Args) -> i32 {
         out.push(J::O(vec![("e", js("end")), ("finals", J::A(finals.iter().map(|v| J::I(*v)).collect())), ("joined", J::B(joined)), ("total", ji(threads * calls))]));
         b.count("closures", (threads * calls) as u64);
         b.push_run(&format!("lock/{i}/{threads}x{calls}x{nlocks}"), out, json!({"threads": threads, "calls": calls, "locks": nlocks, "seed": seed, "long_hold": long_hold}));
+    }
+    // nested applies on two different locks (non-reentrant): every call returns, nothing is lost
+    for (i, (threads, iters)) in [(1usize, 50usize), (4, 200), (16, 100)].into_iter().enumerate() {
+        let (a, bb, joined, badc) = nested(threads, iters);
+        let ev = J::O(vec![("e", js("nested")), ("threads", ji(threads)), ("iters", ji(iters)), ("a", J::I(a)), ("b", J::I(bb)), ("joined", J::B(joined)), ("bad", ji(badc))]);
+        b.count("closures", (2 * threads * iters) as u64);
+        b.push_run(&format!("lock/nested/{i}/{threads}x{iters}"), vec![ev], json!({"nested": true, "threads": threads, "iters": iters}));
     }
     b.finish(json!({"driver": "lock"}))
 }
